@@ -318,6 +318,8 @@ pub struct HoldMonitor {
     pub max_hold_ratio: f64,
     pub n_starve_checked: u64,
     pub n_gap_polls: u64,
+    /// Largest token-lost time-out of any station: a legitimate recovery takes that long.
+    timeout_max: u64,
     /// Only the hold-time clause (used by C15: "the token is passed once ... the hold time is over").
     only_hold_time: bool,
 }
@@ -364,6 +366,7 @@ impl HoldMonitor {
             max_hold_ratio: 0.0,
             n_starve_checked: 0,
             n_gap_polls: 0,
+            timeout_max: (0..w.stations.len()).map(|i| super::token_lost_timeout_ticks(w, i)).max().unwrap_or(0),
             only_hold_time: false,
         }
     }
@@ -413,15 +416,26 @@ impl Monitor for HoldMonitor {
             }
             // starvation: the visit that ends now
             if let Some(i) = w.station_by_addr(*sa) {
-                if *sa == *da && self.holder != Some(*sa) && tx.sender == w.stations[i].node {
+                let was_claim = self.st[i].claim_phase;
+                // a claim: a self-addressed token by a station that does not hold the token, or
+                // (a lone station that backed off after an unexpected answer) after a silence of its
+                // whole time-out
+                let silent_since = bus.txs[..idx].iter().rev().take(32).map(|t| t.end()).max().unwrap_or(0);
+                let timeout = super::token_lost_timeout_ticks(w, i);
+                let after_timeout = tx.start.saturating_sub(silent_since) + super::tol_ticks(w, i, 2, timeout) >= timeout;
+                if *sa == *da && (self.holder != Some(*sa) || after_timeout) && tx.sender == w.stations[i].node {
                     self.st[i].claim_phase = true;
                     self.st[i].claim_tokens = 0;
+                    // what follows a claim is not a regular rotation
+                    for x in self.st.iter_mut() {
+                        x.skip_rotation = true;
+                    }
                 } else if *sa != *da {
                     self.st[i].claim_phase = false;
                 }
                 if self.holder == Some(*sa) && tx.sender == w.stations[i].node {
                     let s = &self.st[i];
-                    if s.greedy && !self.only_hold_time && !s.claim_phase && s.w_cur.is_some() && s.visits > 1 && tx.start >= self.stable_from {
+                    if s.greedy && !self.only_hold_time && !s.claim_phase && !was_claim && s.w_cur.is_some() && s.visits > 1 && tx.start >= self.stable_from {
                         self.n_starve_checked += 1;
                         if s.reqs_in_visit == 0 {
                             w.violate(
@@ -552,12 +566,34 @@ impl Monitor for HoldMonitor {
         }
     }
 
-    fn on_poll(&mut self, _w: &World, p: &PollInfo) {
+    fn on_poll(&mut self, w: &World, p: &PollInfo) {
         // losing the ring membership resets the reference
         if p.pre.in_ring && !p.post.in_ring {
             let s = &mut self.st[p.st];
             s.w_cur = None;
             s.w_prev = None;
+        }
+        // the rotation bound also holds for a token that does not come back at all
+        if !self.only_hold_time && p.post.in_ring && w.now >= self.stable_from {
+            let s = &mut self.st[p.st];
+            if let Some(prev) = s.last_receipt_for_rotation {
+                if !s.skip_rotation && prev >= self.stable_from && w.now.saturating_sub(prev) > (2 * self.rot_bound).max(2 * self.timeout_max + self.rot_bound) && self.holder != Some(w.stations[p.st].cfg.addr) && crate::monitors::ring::agreement(w) {
+                    s.skip_rotation = true;
+                    w.violate(
+                        self.prop,
+                        "hold.rotation",
+                        "token-does-not-return",
+                        Some(w.stations[p.st].cfg.addr),
+                        format!(
+                            "#{} has not seen the token for {} bit times although the ring is unchanged; bound TTR + one message cycle and GAP poll per station = {} bit times (token last sent to {:?})",
+                            w.stations[p.st].cfg.addr,
+                            w.now.saturating_sub(prev) / BIT,
+                            self.rot_bound / BIT,
+                            self.holder
+                        ),
+                    );
+                }
+            }
         }
     }
 
